@@ -22,7 +22,9 @@ func init() {
 
 var (
 	c02Names  = []string{"/web", "/web-1", "/web-10", "/db", "/db.primary", "", "/w", "/cache_1", "/Web"}
-	c02Images = []string{"nginx", "nginx:1.25", "postgres", "redis", "ngin"}
+	c02Images = []string{"nginx", "nginx:1.25", "postgres", "redis", "ngin",
+		// fully qualified / differently spelt references of the same images: the label is the reference as the daemon lists it
+		"docker.io/library/nginx", "docker.io/library/nginx:1.25", "library/redis", "docker.io/postgres", "index.docker.io/library/redis", "docker.io/acme/ngin", "acme/ngin", "NGINX", "nginx:latest", "nginx@sha256:0a1b"}
 	c02States = []string{"running", "exited", "paused", "created", "restarting", "removing", "dead"}
 	c02Keys   = []string{"env", "com.docker.compose.service", "app-name", "a/b", "tier", "org.label-schema.name", "Env", "x y", "größe", "t٣", "container.id", "container-name", "container_state"}
 	c02Vals   = []string{"prod", "production", "pro", "", "dev", "a.b", "a|b", "x y", "(1)", "PROD", " prod", "prod ", " ", "dev\t"}
